@@ -143,21 +143,34 @@ Proof. exact arg_kept_if_not_reported. Qed.
 
 (* refuted on the faithful model: three functions without a trailing underscore overwrite caller data *)
 (* quat2unit: the caller's tensor holds the normalised quaternion afterwards (any normalize, any slice a:b) *)
-Theorem C06_quat2unit_refuted :
+Theorem C06_quat2unit_writes_argument :
   forall (normalize : list Q -> list Q) (zero_detected : nat -> list (list Q) -> bool) (a b : nat) (input : list Q),
   post_args (list Q) [] (p_quat2unit (list Q) (K_quat2unit normalize a b) zero_detected) [input]
   = [firstn a input ++ normalize (firstn (b - a) (skipn a input)) ++ skipn b input].
 Proof. exact quat2unit_witness. Qed.
-(* matching_time_indices([0], [0], offset_2 = 1): stamps_2 is [1] afterwards (ape / rpe reach it with the
-   caller's float64 stamps: p_ape) *)
-Theorem C06_matching_time_indices_refuted :
-  post_args (list Q) [] (p_matching (list Q) (K_matching 1)) [[0%Q]; [0%Q]] = [[0%Q]; [(0 + 1)%Q]].
-Proof. exact matching_witness. Qed.
-(* CG()(A = [[1]], b = [1], x = [0]): the caller's initial guess is [1] afterwards *)
-Theorem C06_cg_initial_guess_refuted :
-  map (map Qred) (post_args (list Q) [] (p_cg (list Q) K_cg1 (C_cg1 (1 # 100000)) true false 10) [[1%Q]; [1%Q]; [0%Q]; []])
-  = [[1%Q]; [1%Q]; [1%Q]; []].
-Proof. exact cg_witness. Qed.
+(* normalize is torch.nn.functional.normalize (external routine); its only assumed property: the quaternion
+   (0,0,0,2) is normalised to (0,0,0,1).  Witness: SO3 data [0,0,0,2] *)
+Theorem C06_quat2unit_refuted :
+  forall (normalize : list Q -> list Q) (zero_detected : nat -> list (list Q) -> bool),
+  normalize [0%Q; 0%Q; 0%Q; 2%Q] = [0%Q; 0%Q; 0%Q; 1%Q] ->
+  exists input, post_args (list Q) [] (p_quat2unit (list Q) (K_quat2unit normalize 0 4) zero_detected) [input] <> [input].
+Proof. exact quat2unit_refuted. Qed.
+(* matching_time_indices([0], [0], offset_2 = 1): stamps_2 is [1] afterwards (ape / rpe reach the same statement
+   with the caller's float64 stamps: p_ape) *)
+Theorem C06_matching_time_indices_refuted : exists stamps_1 stamps_2 offset,
+  post_args (list Q) [] (p_matching (list Q) (K_matching offset)) [stamps_1; stamps_2] <> [stamps_1; stamps_2].
+Proof. exact matching_refuted. Qed.
+(* CG()(A = [[1]], b = [1], x = [0]) (1x1 system, tol 1e-5, 10 iterations allowed): the caller's x is [1] afterwards *)
+Theorem C06_cg_initial_guess_refuted : exists A b x M,
+  map (map Qred) (post_args (list Q) [] (p_cg (list Q) K_cg1 (C_cg1 (1 # 100000)) true false 10) [A; b; x; M])
+  <> map (map Qred) [A; b; x; M].
+Proof. exact cg_refuted. Qed.
+(* and the write check reports exactly these *)
+Theorem C06_write_check_reports :
+  forall (D : Type) (K : nat -> list D -> D) (Cnd : nat -> list D -> bool),
+  may_mutate D 1 (p_quat2unit D K Cnd) = [0] /\ may_mutate D 2 (p_matching D K) = [1] /\
+  (forall has_M n, In 2 (may_mutate D 4 (p_cg D K Cnd true has_M (S n)))).
+Proof. intros D K Cnd. split; [apply quat2unit_reported | split; [apply matching_reported | intros; apply cg_x0_reported]]. Qed.
 
 Print Assumptions C06_broadcast_inputs_spec. Print Assumptions C06_mul_batched. Print Assumptions C06_act_batched.
 Print Assumptions C06_adj_batched. Print Assumptions C06_unary_batched. Print Assumptions C06_broadcast_inputs_one_arg.
@@ -165,5 +178,6 @@ Print Assumptions C06_wrap_decision. Print Assumptions C06_wrap_kwargs_refuted.
 Print Assumptions C06_retain_ltype_restores. Print Assumptions C06_retain_ltype_restores_everything_one_level.
 Print Assumptions C06_retain_ltype_module_rewrite_refuted. Print Assumptions C06_retain_ltype_nested_refuted.
 Print Assumptions C06_pure_ops_do_not_mutate. Print Assumptions C06_unreported_arguments_are_kept.
-Print Assumptions C06_quat2unit_refuted. Print Assumptions C06_matching_time_indices_refuted.
-Print Assumptions C06_cg_initial_guess_refuted.
+Print Assumptions C06_quat2unit_writes_argument. Print Assumptions C06_quat2unit_refuted.
+Print Assumptions C06_matching_time_indices_refuted. Print Assumptions C06_cg_initial_guess_refuted.
+Print Assumptions C06_write_check_reports.
